@@ -69,6 +69,36 @@ claim("C17", "fault_enumeration",
       "Fault depth 1 (quick) / 2 on integer fields (thorough); bulk data of large provers is strided (coverage per object and operator family is listed in the evidence). Trusts the strict parser and dusk-bls12_381 point validation predicates.",
       "DESIGN.md §5 C17")
 
+claim("C07", "model_checking",
+      "exhaustive enumeration of every public component x const-generic width x boundary value tuples (incl. malformed points), layout of each run compared with the all-zero instance; bound-1 internal deviations for totality",
+      "For every public composer component, every width it accepts (quick: residue-class representatives; thorough: all widths) and every value tuple over the boundary alphabets incl. torsion / off-curve / pole-inducing coordinates and extended representations with Z = 0 or inconsistent T, the emitted layout (selectors, wiring, PI rows, counts) equals the one of the all-zero instance or the component returns Err - never a panic; bound-1 deviations inside representative gadgets neither panic nor change the layout; Compiler::compile::<C>() keys equal compile_with_circuit(&instance) keys.",
+      "Values come from the boundary alphabets, not the whole field; constant parameters legitimately shape the layout and are held fixed. Runs in a build with debug assertions and overflow checks.",
+      "DESIGN.md §5 C07")
+
+claim("C08", "model_checking",
+      "exhaustive enumeration of selector tuples x PI modes x wirings for the general gate (emitted row vs documented row, prover replay) and deviation-bounded exploration (E2, bound 2) of every named component over input tuples, decided by M1",
+      "append_gate over all selector tuples in {0,1,-1}^6 (thorough {0,1,-1,2}^6) x {no PI, PI=0, PI=rho} x 5 wirings emits exactly the documented row (selectors kept, q_arith=1, PI row recorded even when zero); one satisfied and one violated assignment per tuple is replayed on the real prover+verifier; gate_add / gate_mul / append_evaluated_output (q_O in {1,-1,2,0}) / assert_equal / assert_equal_constant / append_constant / append_public / component_boolean / component_select(_one/_zero) over input tuples from F_s: satisfiable iff the documented relation holds, and under every bound-1 and bound-2 deviation of their own allocations every satisfying assignment returns the spec value.",
+      "Documented relations are transcribed from each component's rustdoc; M1 (bound to the prover by C05) decides deviations; values from F_s.",
+      "DESIGN.md §5 C08")
+
+claim("C12", "model_checking",
+      "deviation-bounded exploration (E2, bound 2 + solved-for forgery triples) of the curve-group components over subgroup point pairs / bits / scalars, decided by M1 against own affine Edwards arithmetic, verdicts replayed on the real prover",
+      "component_add_point / sub / neg / select_identity / select_point over all ordered pairs of {O, G, 2G, -G, rho G} (incl. P+(-P), P+P, P+O), bits {0,1,2,-1}, and component_mul_point over scalars {0,1,2,r_J-1,r_J,r_J+1,2^252-1,rho,2^252,-1}: always satisfiable on subgroup inputs, every satisfying assignment (all bound-1/2 deviations, forged helper x1*y2 with x3,y3 solved from the remaining identities) returns the native group result; select_identity unsatisfiable for non-boolean bits; scalars >= 2^252 unsatisfiable. mul_point generic deviations are strided (reported in the evidence).",
+      "Own affine twisted-Edwards arithmetic (M5) is the group-law specification; M1 bound to the prover by C05; inputs pinned.",
+      "DESIGN.md §5 C12")
+
+claim("C13", "model_checking",
+      "exhaustive (P, Q) products over subgroup points, all 8 torsion cosets, off-curve pairs and the complete on-curve preimage set of [8], through the real torsion-free gates, decided by M1; direct entry points over extended representations",
+      "For P in {subgroup points} u {S + T : T in E[8] \\ {O}} u {off-curve pairs} and prover-chosen Q in {[8^-1]P + T' for all 8 T'} u {other on-curve points} u {off-curve pairs}: assert_torsion_free_gates(P, Q) (+ bound-1 deviations) is M1-satisfiable iff Q is on-curve and [8]Q = P, hence for some Q iff P is an on-curve subgroup member; append_constant_point / the generator check accept exactly members (generator: non-identity) over normal / scaled-Z / Z=0 / inconsistent-T representations and every entry point rejects Z = 0 with an error, no panic.",
+      "Own affine Edwards arithmetic and torsion-point construction (M5); structural classes of P and Q, not all field pairs; inconsistent-T representations of valid points may be accepted or rejected (informational).",
+      "DESIGN.md §5 C13")
+
+claim("C14", "model_checking",
+      "exhaustive enumeration of prover-chosen signed-digit vectors (single-digit deviations, same-integer rewrites, encodings of s+q, s+-r_J, s+2^253) x scalars x generators through the fixed-base seam plus bound-1 allocation deviations, decided by M1",
+      "component_mul_generator and the signed-digit seam over generators {G, G_nums(, rho G)} and scalar witnesses {0,1,2,r_J-1,r_J,r_J+1,2^252-1,2^252,-1,rho}: satisfiable iff the scalar is canonical (< r_J) and the digit vector (three leading zeros) encodes it as an integer; every satisfying assignment returns [s]G; no digit vector encoding s plus a multiple of either modulus, and no bound-1 deviation of accumulators / xy_alpha / canonicity range checks, yields another point. Verdicts of principal vectors replayed on the real prover.",
+      "Own affine Edwards arithmetic (M5) and NAF code; M1 bound to the prover by C05. Quick tier strides digit positions and allocation ordinals (reported).",
+      "DESIGN.md §5 C14")
+
 ALL = [f"C{i:02d}" for i in range(1, 21)]
 
 def main():
